@@ -55,3 +55,105 @@ pub fn other_vals(ty: &Ty, v: &Val, n: usize) -> Vec<Val> {
     }
     out
 }
+
+// ---------------------------------------------------------------------------------------------
+// "pinned term" helper: wrap a term, compile it, and compare the implementation with R2 on one assignment
+
+use crate::drive::{self, RunOutcome};
+use crate::refmodel::{self, Evaluator, Stop};
+use crate::report::Report;
+use std::collections::HashMap;
+
+pub struct Pinned {
+    pub prog: Program,
+    pub text: String,
+    pub built: Vec<(bool, drive::Built)>,
+    pub free: Vec<(String, Ty)>,
+    pub ty: Ty,
+    pub expr: Expr,
+}
+
+/// Build `wrap_term(e)` with the given debug flags.
+pub fn pin_build(e: &Expr, ty: &Ty, free: &[(String, Ty)], fns: &[FnDef], debug_flags: &[bool]) -> Result<Pinned, (String, drive::CompileOutcome)> {
+    let prog = gen::wrap_term(e, ty, free, fns);
+    let text = prog.render();
+    let mut built = vec![];
+    for d in debug_flags {
+        match drive::build(&text, simfony::Arguments::default(), *d) {
+            Ok(b) => built.push((*d, b)),
+            Err(o) => return Err((text, o)),
+        }
+    }
+    Ok(Pinned { prog, text, built, free: free.to_vec(), ty: ty.clone(), expr: e.clone() })
+}
+
+pub fn run_replay(text: &str, witness: &[(String, Val, Ty)], debug: bool, expect: &str, observed: &str) -> J {
+    json!({"kind": "run", "program": text, "args": [], "witness": map_json(witness), "debug": debug, "env": "dummy", "expect": expect, "observed": observed})
+}
+
+/// Run one assignment of the free variables. Returns Some(true/false) = R2 verdict (success / panic) when the
+/// comparison could be made. `controls` adds wrong-EXPECT runs (which must fail).
+pub fn pin_run(rep: &Report, prop: &str, tag: &str, p: &Pinned, vals: &[Val], env: &drive::Env, controls: bool) -> Option<bool> {
+    let mut wmap: HashMap<String, Val> = HashMap::new();
+    let mut wlist: Vec<(String, Val, Ty)> = vec![];
+    let mut scope: HashMap<String, Val> = HashMap::new();
+    for ((n, t), v) in p.free.iter().zip(vals) {
+        wmap.insert(gen::wit_name_for(n), v.clone());
+        wlist.push((gen::wit_name_for(n), v.clone(), t.clone()));
+        scope.insert(n.clone(), v.clone());
+    }
+    let no_params = HashMap::new();
+    let mut ev = match Evaluator::new(&p.prog, &wmap, &no_params) {
+        Ok(ev) => ev,
+        Err(s) => {
+            rep.machinery(format!("evaluator setup: {s:?}"));
+            return None;
+        }
+    };
+    let mut envstack = vec![scope];
+    let r2 = ev.eval(&p.expr, &p.ty, &mut envstack);
+    let cases: Vec<(Val, bool)> = match &r2 {
+        Ok(v) => {
+            let mut c = vec![(v.clone(), true)];
+            if controls {
+                for o in other_vals(&p.ty, v, 1) {
+                    c.push((o, false));
+                }
+            }
+            c
+        }
+        Err(Stop::Panic(_)) => vec![(refmodel::zero_val(&p.ty), false)],
+        Err(Stop::Stuck(s)) => {
+            rep.machinery(format!("R2 stuck ({s}) on {}", p.text));
+            return None;
+        }
+    };
+    for (ci, (expect_val, should_succeed)) in cases.iter().enumerate() {
+        let mut w = wlist.clone();
+        w.push(("EXPECT".into(), expect_val.clone(), p.ty.clone()));
+        for (debug, built) in &p.built {
+            if *debug && ci > 0 {
+                continue;
+            }
+            rep.eval(1);
+            rep.trace(1);
+            let out = drive::run(built, drive::witness_map(&w), env);
+            rep.class(out.class());
+            let ok = matches!((&out, should_succeed), (RunOutcome::Success, true) | (RunOutcome::Failure(_), false));
+            if !ok {
+                let expect = if *should_succeed { "success" } else { "failure" };
+                let what = format!(
+                    "{tag}: R2 says {} (value {}), implementation: {:?}",
+                    expect,
+                    match &r2 {
+                        Ok(v) => render_expr(&refmodel::val_expr(v, &p.ty)),
+                        Err(s) => format!("{s:?}"),
+                    },
+                    out
+                );
+                rep.violation(format!("{prop}:{}-but-{}:{}", expect, out.class(), tag.split(' ').next().unwrap_or("")), what, run_replay(&p.text, &w, *debug, expect, out.class()));
+            }
+        }
+    }
+    Some(r2.is_ok())
+}
